@@ -96,6 +96,31 @@ type Ctx struct {
 	TickYield bool    // yield at every tick (mode B)
 	NoState   bool    // do not snapshot state (variant has none)
 	Shared    bool    // several Parse calls may be in flight (C18)
+	// TrackEvals: count the evaluations of every (expression node, offset)
+	// pair (hook at the entry of parseExpr); EvalRepeat describes the first
+	// pair evaluated twice, EvalCalls counts the hook calls.
+	TrackEvals bool
+	evals      map[evalKey]bool
+	EvalRepeat string
+	EvalCalls  int
+}
+
+type evalKey struct {
+	node   any
+	offset int
+}
+
+// Eval records one evaluation of node at offset (kind names the node type).
+func (c *Ctx) Eval(node any, kind string, offset int) {
+	c.EvalCalls++
+	if c.evals == nil {
+		c.evals = map[evalKey]bool{}
+	}
+	k := evalKey{node, offset}
+	if c.evals[k] && c.EvalRepeat == "" {
+		c.EvalRepeat = fmt.Sprintf("%s at offset %d", kind, offset)
+	}
+	c.evals[k] = true
 }
 
 func (c *Ctx) Tick() {
@@ -341,6 +366,8 @@ type RunOpts struct {
 	Memoize      bool
 	Debug        bool
 	Statistics   bool
+	// TrackEvals asks for the (expression, offset) evaluation census (C06).
+	TrackEvals   bool
 	// StatsPreload: the Stats object handed to Statistics already holds this
 	// ExprCnt (an object re-used from earlier parses).
 	StatsPreload uint64
@@ -374,6 +401,9 @@ type Obs struct {
 	ExprCnt  uint64 // only with Statistics
 	HasStats bool
 	Ticks    int
+	// EvalRepeat / EvalCalls: see Ctx (only with RunOpts.TrackEvals)
+	EvalRepeat string `json:",omitempty"`
+	EvalCalls  int    `json:",omitempty"`
 	Diverged bool
 	Choice   string   // canonical ChoiceAltCnt (Statistics)
 	Pool     []string // pool discipline breaches seen during this call
